@@ -25,7 +25,7 @@ def cases(tier):
     out = []
     depths = [0, 1, 2, 3]
     for role in ("argument", "kwarg", "callee"):
-        for flavour in ("plain", "dotted", "dotted3", "backquoted"):
+        for flavour in ("plain", "pyname", "dotted", "dotted3", "backquoted"):
             if role in ("argument", "kwarg") and flavour.startswith("dotted"):
                 continue
             if role == "callee" and flavour == "backquoted":
@@ -77,6 +77,9 @@ def harness(env, case):
     x = env.column("x", N)
     y = env.column("y", N)
     base = "I" if bits["builtins"] else "probe"  # 'I' is a built-in (identity): usable as argument and as callee
+    if flavour == "pyname":
+        bits["builtins"] = False
+        base = "round" if role == "callee" else "len"  # names of PYTHON builtins are not a scope of their own
     if flavour == "backquoted":
         base = "odd name!"
     head = base if not flavour.startswith("dotted") else "m"
@@ -125,7 +128,7 @@ def harness(env, case):
 
     if bits["extra"]:
         extra[head] = bound("extra")
-    name_in_formula = {"plain": base, "backquoted": f"`{base}`", "dotted": "m.fn", "dotted3": "m.sub.fn"}[flavour]
+    name_in_formula = {"plain": base, "pyname": base, "backquoted": f"`{base}`", "dotted": "m.fn", "dotted3": "m.sub.fn"}[flavour]
     formula = {"argument": f"y ~ rec(x, {name_in_formula})", "kwarg": f"y ~ rec(x, v={name_in_formula})", "callee": f"y ~ {name_in_formula}(x)"}[role]
     # nested callers: frame i has its own globals dict; decoys at every depth other than the selected one
     result = {}
@@ -240,7 +243,7 @@ def run(tier, seed):
     rep.functions = ["formulae.environment.Environment.capture/with_outer_namespace, VarLookupDict", "formulae.matrices.design_matrices (env, extra_namespace)", "formulae.terms.call.Call.set_type (TRANSFORMS+ENCODINGS first)",
                      "formulae.terms.call_resolver.LazyVariable.eval, LazyCall.eval, get_function_from_module"]
     cs = cases(tier)
-    rep.bounds = {"scope subsets": "all 2^5 subsets per case (2^4 for dotted names, 2^3 for back-quoted names)", "roles": ["argument", "callee"], "flavours": ["plain", "dotted m.fn", "dotted m.sub.fn", "back-quoted"],
+    rep.bounds = {"scope subsets": "all 2^5 subsets per case (2^4 for dotted names, 2^3 for back-quoted names)", "roles": ["argument", "callee"], "flavours": ["plain", "name of a Python builtin (round / len)", "dotted m.fn", "dotted m.sub.fn", "back-quoted"],
                   "env depth": "0..3 through four generated nested callers, each with its own globals dict; decoy bindings (distinct z3 values) at every other depth", "cases": len(cs)}
     rep.outside = ["built-ins with dotted / back-quoted names do not exist; a back-quoted name cannot be a local variable", "depth > 3"]
     rep.stubs = pipe.STUBS
